@@ -214,7 +214,7 @@ static void fixed_case(unsigned k, CaseInfo& ci) {
   if (ap && bp) { ap[N - 1] = 1; bp[N - 1] = 1; mpz_limbs_finish(a, N); mpz_limbs_finish(b, -N); mpz_set_si(m1, -1);
     r1 = mpz_cmp(a, b); r2 = mpz_cmp(b, a); r3 = mpz_cmp_si(a, -5L); r4 = mpz_cmp(a, m1); ok = r1 > 0 && r2 < 0 && r3 > 0 && r4 > 0; }
   mpz_clear(a); mpz_clear(b); mpz_clear(m1); mp_set_memory_functions(oa, orl, ofr);
-  REQUIRE(ap && bp, "cannot map 8 GiB of address space twice (harness limitation, not a verdict)");
+  if (!(ap && bp)) { ci.label("fixed0:address_space_refused_no_verdict"); return; }   /* 2 x 8 GiB of address space not available here: no verdict, never an alarm */
   REQUIRE(ok, "operands of 2^30 limbs with opposite signs: mpz_cmp(a,b) = %d (want > 0), mpz_cmp(b,a) = %d (want < 0), mpz_cmp_si(a,-5) = %d (want > 0), mpz_cmp(a,-1) = %d (want > 0)", r1, r2, r3, r4);
 }
 namespace eng {
